@@ -1,5 +1,5 @@
 // E2 harness for C05: runtime life-cycle histories on the live runtime, exact event log.
-// usage: e2_life <seed> <perturb_per_1024> <incarnations> <size> [force-style]
+// usage: e2_life <seed> <perturb_per_1024> <incarnations> <size> [style|-1 [threads|0 [policy|-1 [race_suspend]]]]
 // One process = one case = 1..5 incarnations of the runtime, each with its own thread count and
 // scheduling policy, each running a history drawn from
 //   start cfg; (submit* | external_submit | wait | task_wait | suspend; [submit]; resume)*; finalize; stop
@@ -18,6 +18,10 @@
 #include <atomic>
 #include <chrono>
 #include <cstdlib>
+#include <cstring>
+#include <dirent.h>
+#include <map>
+#include <sys/syscall.h>
 #include <functional>
 #include <memory>
 #include <mutex>
@@ -214,23 +218,76 @@ static char const* volatile g_where = "";
 
 static void finish(char const* status);
 
+// per-thread scheduler facts from /proc: state letter and consumed CPU time (clock ticks)
+struct tstat
+{
+    char state;
+    long cpu;
+};
+static std::map<int, tstat> read_threads()
+{
+    std::map<int, tstat> out;
+    DIR* d = opendir("/proc/self/task");
+    if (!d) return out;
+    while (dirent* e = readdir(d))
+    {
+        int tid = std::atoi(e->d_name);
+        if (tid <= 0) continue;
+        std::string path = std::string("/proc/self/task/") + e->d_name + "/stat";
+        FILE* f = std::fopen(path.c_str(), "r");
+        if (!f) continue;
+        char buf[1024];
+        std::size_t n = std::fread(buf, 1, sizeof(buf) - 1, f);
+        std::fclose(f);
+        buf[n] = 0;
+        char* p = std::strrchr(buf, ')');    // the command name may contain spaces
+        if (!p) continue;
+        char st = 0;
+        long ut = 0, stt = 0;
+        // after ')': state ppid pgrp session tty tpgid flags minflt cminflt majflt cmajflt utime stime
+        if (std::sscanf(p + 1, " %c %*d %*d %*d %*d %*d %*u %*u %*u %*u %*u %ld %ld", &st, &ut, &stt) == 3)
+            out[tid] = tstat{st, ut + stt};
+    }
+    closedir(d);
+    return out;
+}
+
 static void watchdog()
 {
     std::size_t last_log = 0;
     long last_done = -1, last_stage = -1, last_ids = -1;
     int quiet = 0;
+    int const self_tid = int(syscall(SYS_gettid));
+    std::map<int, tstat> base;
     while (!g_watch_stop.load())
     {
         std::this_thread::sleep_for(std::chrono::milliseconds(20));
         if (e2::g_overflow.load()) finish("livelock");
         std::size_t logsz = e2::g_log->size();
         long d = g_done.load(), st = g_stage.load(), ids = g_ids.load();
-        // a hang is declared only from state: main is blocked in wait/stop/suspend/resume, and
-        // neither the event log, nor the ledger, nor any harness thread has moved for 600
-        // consecutive observations (a slow machine only makes the observations slower)
-        if (g_blocking.load() != 0 && logsz == last_log && d == last_done && st == last_stage && ids == last_ids)
+        // A hang is declared only from state, never from elapsed time: neither the event log, nor the
+        // ledger, nor any harness thread has moved for 600 consecutive observations, AND every thread
+        // of the process is either blocked in the kernel or has consumed at least 0.5 s of CPU time
+        // since the last movement (a runnable thread that the loaded machine has not yet given CPU
+        // time keeps the verdict open indefinitely).
+        if (logsz == last_log && d == last_done && st == last_stage && ids == last_ids)
         {
-            if (++quiet >= 600) finish("hang");
+            if (quiet == 0) base = read_threads();
+            ++quiet;
+            if (quiet >= 600 && quiet % 50 == 0)
+            {
+                auto now = read_threads();
+                bool all_served = true;
+                for (auto const& [tid, ts] : now)
+                {
+                    if (tid == self_tid) continue;
+                    if (ts.state == 'S' || ts.state == 'D') continue;
+                    auto it = base.find(tid);
+                    long before = it == base.end() ? 0 : it->second.cpu;
+                    if (ts.cpu - before < 50) { all_served = false; break; }
+                }
+                if (all_served) finish("hang");
+            }
         }
         else quiet = 0;
         last_log = logsz;
@@ -334,10 +391,13 @@ static void waiter_task(long id, std::uint64_t seed)
     g.tick();
 }
 
+static int g_force_th = 0, g_force_pol = -1, g_race_suspend = 0;
 static void run_incarnation(rng& r, int inc, int force_style)
 {
-    int const th = 1 + int(r.below(4)) + (r.below(6) == 0 ? 2 : 0);
-    int const pol = int(r.below(8));
+    int th = 1 + int(r.below(4)) + (r.below(6) == 0 ? 2 : 0);
+    int pol = int(r.below(8));
+    if (g_force_th > 0) th = g_force_th;
+    if (g_force_pol >= 0) pol = g_force_pol;
     int const style = force_style >= 0 ? force_style : int(r.below(4));
     g_maxdepth = 1 + int(r.below(3));
     g_width = 1 + int(r.below(3));
@@ -424,6 +484,11 @@ static void run_incarnation(rng& r, int inc, int force_style)
         }
         default:
         {
+            // External submissions racing suspend() can make suspend() spin forever in the pinned tree
+            // (finding C05-suspend-lowprio: a worker in pre_sleep never takes low-priority work but
+            // does not go to sleep while the low-priority queue is non-empty); the default grammar
+            // therefore completes all external submissions first.  `race_suspend=1` keeps the race.
+            if (!g_race_suspend) join_helpers();
             e2::note("x.susp.enter", nullptr);
             {
                 blocking b("pika::suspend()");
@@ -527,6 +592,9 @@ int main(int argc, char** argv)
     g_incs = std::atoi(argv[3]);
     g_size = std::atoi(argv[4]);
     int force_style = argc > 5 ? std::atoi(argv[5]) : -1;
+    if (argc > 6) g_force_th = std::atoi(argv[6]);
+    if (argc > 7) g_force_pol = std::atoi(argv[7]);
+    if (argc > 8) g_race_suspend = std::atoi(argv[8]);
     g_tasks = new std::vector<tinfo>(max_tasks);
     e2::g_filter = &life_filter;
     e2::install(g_seed, perturb);
